@@ -6,15 +6,15 @@ CONSTANTS
     Unescape = "quote"
     BearerTail = 3
     XKeys = {"K_hash", "K_cert", "K_subject", "K_uri", "K_dns", "K_by", "K_chain"}
-    XAtoms = {"c", "COMMA", "SEMI", "EQ", "Q", "SP", "PC", "PQ", "ESC"}
+    XAtoms = {"c", "COMMA", "SEMI", "EQ", "Q", "SP", "PC", "PQ", "ESC", "ESCBS"}
     XLen = 2
     XElems = 2
     XPairs = 2
     XSlots = 2
     XWs = {FALSE, TRUE}
     X2Keys = {"K_hash", "K_cert"}
-    X2Atoms = {"c", "COMMA", "Q", "ESC"}
-    CnAtoms = {"c0", "ESC", "EQ", "SP"}
+    X2Atoms = {"c", "COMMA", "Q", "ESC", "ESCBS"}
+    CnAtoms = {"c0", "ESC", "EQ", "SP", "ESCBS"}
     CnLen = 2
     NoiseSyms = {"K_hash", "K_cert", "EQ", "Q", "BS", "COMMA", "SEMI", "SP", "c1", "PC"}
     NoiseLen = 3
